@@ -53,7 +53,7 @@ func rewriteCase(k *engine.Case) {
 			n := g.size(pk0, L, 0)
 			data, sty := payload(r, n, 20)
 			desc = fmt.Sprintf("Write(%s %s)", sty, fmtBytes(data))
-			b.Write(append([]byte(nil), data...))
+			writeOwn(b, data)
 			model = append(model, data...)
 		case x < 28:
 			n := g.size(pk0, L, 0)
@@ -131,7 +131,7 @@ func rewriteCase(k *engine.Case) {
 			before := append([]byte(nil), model...)
 			keep := append([]byte(nil), data...)
 			b.ReWrite(pos, data)
-			copy(model[pos:], data)
+			copy(model[pos:], keep)
 			k.Count(class, 1)
 			k.Count("rewrites", 1)
 			if !bytes.Equal(before, model) {
@@ -141,7 +141,9 @@ func rewriteCase(k *engine.Case) {
 			if grown {
 				k.Count("rewrite_after_growth", 1)
 			}
-			if !bytes.Equal(keep, data) {
+			payloadIntact := bytes.Equal(keep, data)
+			fill(data, 0x5A) // the caller reuses its slice: ReWrite must have copied
+			if !payloadIntact {
 				k.Logf("%02d %s", i, desc)
 				k.Fail("rewrite-modified-argument", "step %d %s: ReWrite changed the caller's slice", i, desc)
 				return
